@@ -23,14 +23,22 @@ var unitOps = map[string]func(op J) J{
 	},
 	"parse": func(op J) J {
 		l := language.NewLexer(str(op, "text"))
+		safe := func(f func() string) (out interface{}) {
+			defer func() {
+				if r := recover(); r != nil {
+					out = nil
+				}
+			}()
+			return b2l(f())
+		}
 		if b, _ := op["update"].(bool); b {
 			p := language.NewUpdateParser(l)
 			st := p.ParseUpdateExpression()
-			return J{"r": "ok", "ast": b2l(st.String()), "errors": len(p.Errors()), "unsupported": p.IsUnsupportedExpression()}
+			return J{"r": "ok", "ast": safe(st.String), "errors": len(p.Errors())}
 		}
 		p := language.NewParser(l)
 		st := p.ParseConditionalExpression()
-		return J{"r": "ok", "ast": b2l(st.String()), "errors": len(p.Errors())}
+		return J{"r": "ok", "ast": safe(st.String), "errors": len(p.Errors())}
 	},
 	"match": func(op J) J {
 		li := interpreter.Language{}
